@@ -3,7 +3,8 @@
 usage: tools/run_all_seeds.py [id-substring ...]"""
 import json, os, subprocess, sys, time
 EXTRA = {"C09_A": ["C11"], "C09_B": ["C13"], "C14_A": ["C12"], "C12_A": []}
-RETIRED = {"C12_A": "after fix 2328a75 (system mass is propagated before the bookkeeping) the change no longer breaks the property: its demo passes with the change applied"}
+RETIRED = {"C02_B": "after fix 7a23358 (a bond symbol in front of a ring-closure digit is stripped before the bond characters are read) the ring digits no longer reach the lookup the change introduced: its demo passes with the change applied",
+           "C12_A": "after fix 2328a75 (system mass is propagated before the bookkeeping) the change no longer breaks the property: its demo passes with the change applied"}
 sel = sys.argv[1:]
 rows = []
 for d in sorted(os.listdir("/verif/seeded")):
